@@ -4,6 +4,7 @@ import (
 	"fmt"
 	"reflect"
 	"strings"
+	"sync/atomic"
 
 	"github.com/AdguardTeam/urlfilter"
 	"github.com/AdguardTeam/urlfilter/filterlist"
@@ -205,7 +206,9 @@ func genMixedLists(t *rapid.T, fileChance int) (lists []ListSpec, models []NetMo
 	if chance(t, "regex-block", 2) {
 		lines = append(lines, "/ads[0-9]?/", "/banner_?ad/", "/exampl[e]\\.org/", "/goog+le/", "/x\\.js$/$script", "/^https?:\\/\\/a\\.com/", "@@/adsa[0-9]/",
 			// regex rules with their own long shortcuts: different URLs reach different ones first
-			"/bannerx[0-9]/", "/adsgpq\\d/", "/trackerz+/", "/pixelw[a-z]{2}/", "@@/counterv\\d+/")
+			"/bannerx[0-9]/", "/adsgpq\\d/", "/trackerz+/", "/pixelw[a-z]{2}/", "@@/counterv\\d+/",
+			// expressions that cannot be compiled: such a rule never matches, however often it is reached
+			"/bannerx(?!y)/", "/(a)\\1dsgpq/", "/trackerz(?=z)/$image")
 		// regex rules whose text is new in this process (a process-wide cache keyed by text has not seen them)
 		k := rapid.IntRange(0, 1<<30).Draw(t, "fresh-regex-id")
 		for _, c := range "abcd" {
@@ -320,4 +323,35 @@ func rewriteValues(rs []*rules.NetworkRule) []string {
 		out = append(out, fmt.Sprintf("%s => rcode=%d type=%d cname=%q value=%+v", r.Text(), r.DNSRewrite.RCode, r.DNSRewrite.RRType, r.DNSRewrite.NewCNAME, v))
 	}
 	return out
+}
+
+// flakyList is a string-backed list whose next retrievals can be made to fail
+// (a read error that goes away again).
+type flakyList struct {
+	*filterlist.StringRuleList
+	failNext atomic.Int32
+}
+
+func (l *flakyList) RetrieveRule(ruleIdx int) (rules.Rule, error) {
+	if l.failNext.Load() > 0 {
+		l.failNext.Add(-1)
+		return nil, fmt.Errorf("transient read error (injected): %w", filterlist.ErrRuleRetrieval)
+	}
+	return l.StringRuleList.RetrieveRule(ruleIdx)
+}
+
+// newFlakyEngSet builds the engines over string-backed lists wrapped in flakyList.
+func newFlakyEngSet(lists []ListSpec) (*engSet, []*flakyList, error) {
+	var rl []filterlist.RuleList
+	var fl []*flakyList
+	for _, l := range lists {
+		f := &flakyList{StringRuleList: &filterlist.StringRuleList{ID: l.ID, RulesText: l.Text, IgnoreCosmetic: l.IgnoreCosmetic}}
+		fl = append(fl, f)
+		rl = append(rl, f)
+	}
+	st, err := filterlist.NewRuleStorage(rl)
+	if err != nil {
+		return nil, nil, err
+	}
+	return &engSet{st: st, e: urlfilter.NewEngine(st), n: urlfilter.NewNetworkEngine(st), d: urlfilter.NewDNSEngine(st), cleanup: func() { _ = st.Close() }}, fl, nil
 }
